@@ -72,6 +72,9 @@ def noise_receive(self: Obj("YowNoiseLayer"), data: Bytes):
     # in the queue in arrival order: nothing is lost when they arrive at the very moment the handshake completes)
     ensures(n_events("queue.put") == 1 and event_arg("queue.put", 0, 1) == data)
     ensures(n_events("flush") == (0 if event_result("in_handshake", 0) else 1))
+    # the handshake state is looked at AFTER the segment is in the queue: if the handshake completes in between, either the worker's
+    # flush or this one finds the segment (looked at before, the segment would wait for the next frame to arrive)
+    ensures(n_events("in_handshake") == 1 and at_event("in_handshake", 0, lambda: n_events("queue.put") == 1))
     ensures(implies(not event_result("in_handshake", 0), at_event("flush", 0, lambda: n_events("queue.put") == 1)))
     propagates("flush", ensures=n_events("queue.put") == 1)
 
